@@ -61,3 +61,28 @@ Theorem C20_off_hides_detail :
     page500 L false sw1 admin d1 = page500 L false sw2 admin d2.
 Proof. exact off_hides_detail. Qed.
 Print Assumptions C20_off_hides_detail.
+
+(* ------------------------------------------------ tie to the source text *)
+(* The gate itself, on the dispatcher regenerated from
+   Application.handler_from_table of poorwsgi/wsgi.py on every run
+   (gen/SelectGen.v, proofs/SelectGenEq.v: generated = Routing.select).
+   Debug off: every request -- the one for /debug-info included -- is
+   dispatched as by handler_from_table with both
+   `if req.debug and req.path == '/debug-info'` blocks taken out
+   ([select_without_debug]); and the debug page is selected only with debug
+   on and only for the path /debug-info. *)
+Require Import PW.model.Routing PW.gen.SelectGen PW.proofs.SelectGenEq.
+
+Theorem C20_generated_debug_gate :
+  forall U a root fs method raw,
+    gen_select U a false root fs method raw =
+    select_without_debug U a root fs method raw.
+Proof. exact gen_debug_gate. Qed.
+Print Assumptions C20_generated_debug_gate.
+
+Theorem C20_generated_debug_page_only_when_on :
+  forall U a debug root fs method raw,
+    gen_select U a debug root fs method raw = SDebug ->
+    debug = true /\ Routing.req_path raw = Routing.debug_path.
+Proof. exact gen_debug_only_when_on. Qed.
+Print Assumptions C20_generated_debug_page_only_when_on.
